@@ -7,8 +7,12 @@
 package downloader
 
 import (
+	"sort"
+
 	"github.com/youchainhq/go-youchain/common"
+	"github.com/youchainhq/go-youchain/core/types"
 	"github.com/youchainhq/go-youchain/trie"
+	"github.com/youchainhq/go-youchain/youdb"
 	"golang.org/x/crypto/sha3"
 )
 
@@ -21,3 +25,82 @@ func VerifC19NewTrieSync(sched *trie.Sync) *VerifC19TrieSync {
 func (v *VerifC19TrieSync) ProcessNodeData(blob []byte) (bool, common.Hash, error) {
 	return v.s.processNodeData(blob)
 }
+
+// ---- trieSync request bookkeeping (fillTasks / process / commit) -------------
+// A trieSync built by the real constructor on a Downloader that holds nothing
+// but a peer set; the harness plays runTrieSync's dispatcher and the peers.
+
+type VerifC19Caller struct {
+	s *trieSync
+	d *Downloader
+}
+
+type VerifC19Req struct{ r *trieReq }
+
+func VerifC19NewCaller(sched *trie.Sync, db youdb.Database, state bool, peers []string) *VerifC19Caller {
+	d := &Downloader{peers: newPeerSet()}
+	kind := types.KindValidator
+	if state {
+		kind = types.KindState
+	}
+	c := &VerifC19Caller{newTrieSync(d, kind, db, sched), d}
+	c.SetPeers(peers)
+	return c
+}
+
+// SetPeers replaces the registered peer set (peers joining / leaving).
+func (c *VerifC19Caller) SetPeers(ids []string) {
+	m := make(map[string]*peerConnection)
+	for _, id := range ids {
+		if p, ok := c.d.peers.peers[id]; ok {
+			m[id] = p
+		} else {
+			m[id] = newPeerConnection(id, nil, nil)
+		}
+	}
+	c.d.peers.peers = m
+}
+
+func (c *VerifC19Caller) NumPeers() int { return c.d.peers.Len() }
+
+func (c *VerifC19Caller) FillTasks(peer string, n int) *VerifC19Req {
+	p := c.d.peers.peers[peer]
+	if p == nil {
+		p = newPeerConnection(peer, nil, nil)
+	}
+	req := &trieReq{peer: p}
+	c.s.fillTasks(n, req)
+	return &VerifC19Req{req}
+}
+
+func (r *VerifC19Req) Items() []common.Hash { return append([]common.Hash{}, r.r.items...) }
+
+// Tasks lists req.tasks (hash -> peers tried).
+func (r *VerifC19Req) Tasks() map[common.Hash][]string { return dumpTasks(r.r.tasks) }
+
+func dumpTasks(t map[common.Hash]*trieTask) map[common.Hash][]string {
+	out := make(map[common.Hash][]string)
+	for h, k := range t {
+		var a []string
+		for id := range k.attempts {
+			a = append(a, id)
+		}
+		sort.Strings(a)
+		out[h] = a
+	}
+	return out
+}
+
+// Process runs trieSync.process; response == nil means the request timed out
+// or the peer dropped.
+func (c *VerifC19Caller) Process(r *VerifC19Req, response [][]byte, dropped bool) (int, error) {
+	r.r.response = response
+	r.r.dropped = dropped
+	return c.s.process(r.r)
+}
+
+func (c *VerifC19Caller) Commit(force bool) error { return c.s.commit(force) }
+
+func (c *VerifC19Caller) Tasks() map[common.Hash][]string { return dumpTasks(c.s.tasks) }
+
+func (c *VerifC19Caller) Counters() (int, int) { return c.s.numUncommitted, c.s.bytesUncommitted }
